@@ -125,6 +125,17 @@ def effective_known(j, known):
             used.add(ms[0])
             eff.add(path)
             renamed[ms[0]] = path
+    # third chance: a function MOVED to another module / file keeps its name and signature
+    for path, info in sorted(cur.items()):
+        if path in eff or not info.get('sig') or path.startswith('<'):
+            continue
+        last = path.split('::')[-1]
+        ms = [m for m in missing if m not in used and m.split('::')[-1] == last and known[m]['sig'] == info['sig']]
+        others = [p2 for p2, i2 in cur.items() if p2 not in eff and p2 != path and p2.split('::')[-1] == last and i2.get('sig') == info['sig']]
+        if len(ms) == 1 and not others:
+            used.add(ms[0])
+            eff.add(path)
+            renamed[ms[0]] = path
     return eff, renamed
 
 
@@ -307,23 +318,82 @@ def _succs(blk):
     return []
 
 
-def _assigned_value(blk, ret_local, upto=None):
+_ADT_DISCR = {}      # (adt path, variant name) -> discriminant value, filled from the facts by inline_unknown
+
+
+def _set_adt_table(j):
+    _ADT_DISCR.clear()
+    for a in j.get('adts', []):
+        for v in a.get('variants', []):
+            d = v.get('discr')
+            _ADT_DISCR[(strip_crate(a['path']), v['name'])] = int(d) if d is not None else int(v.get('idx', 0))
+    for (adt, var), idx in (((_R_, 'Ok'), 0), ((_R_, 'Err'), 1), ((_O_, 'None'), 0), ((_O_, 'Some'), 1), (('std::ops::ControlFlow', 'Continue'), 0), (('std::ops::ControlFlow', 'Break'), 1)):
+        _ADT_DISCR[(adt, var)] = idx
+
+
+_R_, _O_ = 'std::result::Result', 'std::option::Option'
+
+
+def _absval_of_rv(body, rv, depth=0):
+    """Abstract value of an rvalue when it is a constant or an aggregate with a known variant:
+    ('adt', adt, variant, discr, (sub values...)) | ('bool', v) | ('int', v) | None"""
+    if rv['k'] == 'agg' and rv.get('agg') == 'adt' and rv.get('variant') is not None:
+        adt = strip_crate(rv.get('adt') or '')
+        d = _ADT_DISCR.get((adt, rv['variant']), rv.get('variant_idx'))
+        subs = tuple(_absval_of_op(body, o, depth + 1) for o in rv.get('ops', []))
+        return ('adt', adt, rv['variant'], d, subs)
+    if rv['k'] == 'agg' and rv.get('agg') in ('tuple',):
+        return ('tuple', tuple(_absval_of_op(body, o, depth + 1) for o in rv.get('ops', [])))
+    if rv['k'] == 'use':
+        return _absval_of_op(body, rv['op'], depth)
+    return None
+
+
+def _single_def_rv(body, l):
+    found = None
+    for blk in body['blocks']:
+        if blk.get('cleanup'):
+            continue
+        for s_ in blk['stmts']:
+            if s_.get('k') == 'assign' and s_['place']['l'] == l:
+                if s_['place']['p'] or found is not None:
+                    return None
+                found = s_['rv']
+        t = blk['term']
+        if t['k'] == 'call' and t.get('dest') is not None and t['dest']['l'] == l:
+            return None
+    return found
+
+
+def _absval_of_op(body, o, depth=0):
+    if o.get('k') == 'const':
+        if o.get('ty') == 'bool' and 'bits' in o:
+            return ('bool', int(o['bits']))
+        if 'bits' in o:
+            return ('int', int(o['bits']))
+        return None
+    if o.get('k') in ('move', 'copy') and not o['place']['p'] and depth < 4 and body is not None:
+        l = o['place']['l']
+        if l <= body.get('arg_count', 0):
+            return None
+        rv = _single_def_rv(body, l)
+        if rv is not None and rv['k'] in ('agg', 'use'):
+            return _absval_of_rv(body, rv, depth + 1)
+    return None
+
+
+def _assigned_value(blk, ret_local, upto=None, body=None):
     """Known value assigned to ret_local by the statements of blk (last assignment wins), or None / 'none-assigned'."""
     stmts = blk['stmts'] if upto is None else blk['stmts'][:upto]
     for s in reversed(stmts):
         if s.get('k') == 'assign' and s['place']['l'] == ret_local:
             if s['place']['p']:
                 return None
-            rv = s['rv']
-            if rv['k'] == 'agg' and rv.get('agg') == 'adt' and rv.get('adt') in ('std::result::Result', 'std::option::Option') and rv.get('variant') is not None:
-                return ('adt', rv['adt'], rv['variant'], rv.get('variant_idx'))
-            if rv['k'] == 'use' and rv['op'].get('k') == 'const' and rv['op'].get('ty') == 'bool' and 'bits' in rv['op']:
-                return ('bool', int(rv['op']['bits']))
-            return None
+            return _absval_of_rv(body, s['rv'])
     return 'none-assigned'
 
 
-def _value_at_end(blocks, preds, xi, ret_local, ret_ty, depth=0):
+def _value_at_end(blocks, preds, xi, ret_local, ret_ty, depth=0, body=None):
     X = blocks[xi]
     t = X['term']
     if t['k'] == 'call' and t.get('dest') is not None and t['dest']['l'] == ret_local:
@@ -332,11 +402,11 @@ def _value_at_end(blocks, preds, xi, ret_local, ret_ty, depth=0):
         nm = t['callee'].get('name', '')
         if nm.endswith('::from_residual') and 'FromResidual' in nm:
             if ret_ty.startswith('std::result::Result<'):
-                return ('adt', 'std::result::Result', 'Err', 1)
+                return ('adt', 'std::result::Result', 'Err', 1, (None,))
             if ret_ty.startswith('std::option::Option<'):
-                return ('adt', 'std::option::Option', 'None', 0)
+                return ('adt', 'std::option::Option', 'None', 0, ())
         return None
-    v = _assigned_value(X, ret_local, X.get('n_own_stmts'))
+    v = _assigned_value(X, ret_local, X.get('n_own_stmts'), body)
     if v != 'none-assigned':
         return v
     # not assigned here: the value is whatever all predecessors agree on
@@ -347,7 +417,7 @@ def _value_at_end(blocks, preds, xi, ret_local, ret_ty, depth=0):
     for pi in ps:
         if pi == xi:
             return None
-        v = _value_at_end(blocks, preds, pi, ret_local, ret_ty, depth + 1)
+        v = _value_at_end(blocks, preds, pi, ret_local, ret_ty, depth + 1, body)
         if v is None:
             return None
         vals.add(v)
@@ -413,40 +483,148 @@ def _parse_cont(caller, ti, D):
     return None
 
 
-def _specialise_block(caller, nb, val, cont, D):
-    """Append the caller's continuation prefix to block json nb (which ends with `D = move ret; goto T`) with the
-    first test resolved for the known value. Returns True if rewritten."""
+def _peval(caller, nb, start, env, max_blocks=24):
+    """Partial evaluation of the caller's continuation on known values.  `nb` is a block under construction whose
+    statements have already established env = {local: abstract value}; starting at block index `start`, statements are
+    copied into nb and interpreted on env; `Try::branch` of a known Result/Option and switches on known discriminants /
+    bools / integers are resolved.  Evaluation stops at the first terminator that cannot be resolved, which nb then
+    receives a copy of.  Returns the number of tests resolved (0: nb is left untouched)."""
     blocks = caller['blocks']
-    T = blocks[cont['T']]
-    if cont['shape'] == 'try':
-        if val[0] != 'adt':
-            return False
-        cf = ('Continue', 0) if val[2] in ('Ok', 'Some') else ('Break', 1)
-        tgt = cont['targets'].get(cf[1], cont['otherwise'])
-        nb['stmts'].extend(copy.deepcopy(T['stmts']))
-        nb['stmts'].append({'k': 'assign', 'place': {'l': cont['B'], 'p': []}, 'rv': {'k': 'agg', 'agg': 'adt', 'adt': 'std::ops::ControlFlow', 'variant': cf[0], 'variant_idx': cf[1], 'is_enum': True, 'fields': ['0'],
-                            'ops': [{'k': 'move', 'place': {'l': D, 'p': []}}], 'inl_try': val[2]}, 'span': cont['span'], 'exp': cont.get('exp'), 'inl': 'try'})
-        nb['stmts'].extend(copy.deepcopy(blocks[cont['T2']]['stmts']))
-        nb['term'] = {'k': 'goto', 'target': tgt, 'span': nb['term']['span'], 'exp': nb['term'].get('exp'), 'inl': 'resolved'}
-        return True
-    if cont['shape'] == 'match':
-        if val[0] != 'adt' or val[3] is None:
-            return False
-        tgt = cont['targets'].get(int(val[3]), cont['otherwise'])
-        nb['stmts'].extend(copy.deepcopy(T['stmts']))
-        nb['term'] = {'k': 'goto', 'target': tgt, 'span': nb['term']['span'], 'exp': nb['term'].get('exp'), 'inl': 'resolved'}
-        return True
-    if cont['shape'] == 'bool':
-        if val[0] != 'bool':
-            return False
-        v = val[1]
-        if cont['neg']:
-            v = 1 - v
-        tgt = cont['targets'].get(v, cont['otherwise'])
-        nb['stmts'].extend(copy.deepcopy(T['stmts']))
-        nb['term'] = {'k': 'goto', 'target': tgt, 'span': nb['term']['span'], 'exp': nb['term'].get('exp'), 'inl': 'resolved'}
-        return True
-    return False
+    stmts = []
+    cur = start
+    resolved = 0
+    committed = None
+    last_term = None
+    seen = set()
+    env = dict(env)
+
+    def val_of_place(pl):
+        v = env.get(pl['l'])
+        proj = pl['p']
+        k = 0
+        while v is not None and k < len(proj):
+            e = proj[k]
+            if e['k'] == 'downcast':
+                if v[0] != 'adt' or v[2] != e.get('variant'):
+                    return None
+                k += 1
+                continue
+            if e['k'] == 'field':
+                subs = v[4] if v[0] == 'adt' else (v[1] if v[0] == 'tuple' else None)
+                if subs is None or e['i'] >= len(subs):
+                    return None
+                v = subs[e['i']]
+                k += 1
+                continue
+            return None
+        return v
+
+    def val_of_op(o):
+        if o.get('k') == 'const':
+            return _absval_of_op(None, o)
+        if o.get('k') in ('move', 'copy'):
+            return val_of_place(o['place'])
+        return None
+
+    for _step in range(max_blocks):
+        if cur in seen:
+            break
+        seen.add(cur)
+        blk = blocks[cur]
+        if blk.get('cleanup'):
+            break
+        bstmts = copy.deepcopy(blk['stmts'])
+        for s_ in bstmts:
+            if s_.get('k') != 'assign':
+                continue
+            pl = s_['place']
+            if pl['p']:
+                if pl['l'] in env:
+                    env[pl['l']] = None
+                continue
+            rv = s_['rv']
+            v = None
+            if rv['k'] == 'use':
+                v = val_of_op(rv['op'])
+            elif rv['k'] == 'discr':
+                dv = val_of_place(rv['place'])
+                if dv is not None and dv[0] == 'adt' and dv[3] is not None:
+                    v = ('int', int(dv[3]))
+            elif rv['k'] == 'unop' and rv.get('op') == 'Not':
+                a = val_of_op(rv['a'])
+                if a is not None and a[0] == 'bool':
+                    v = ('bool', 1 - a[1])
+            elif rv['k'] == 'agg':
+                if rv.get('agg') == 'adt' and rv.get('variant') is not None:
+                    adt = strip_crate(rv.get('adt') or '')
+                    v = ('adt', adt, rv['variant'], _ADT_DISCR.get((adt, rv['variant']), rv.get('variant_idx')), tuple(val_of_op(o) for o in rv.get('ops', [])))
+                elif rv.get('agg') == 'tuple':
+                    v = ('tuple', tuple(val_of_op(o) for o in rv.get('ops', [])))
+            env[pl['l']] = v
+        t = blk['term']
+        k = t['k']
+        if k == 'goto':
+            stmts.extend(bstmts)
+            cur = t['target']
+            continue
+        if k == 'call' and 'as std::ops::Try>::branch' in t['callee'].get('name', '') and t.get('dest') is not None and not t['dest']['p'] and t.get('target') is not None and len(t['args']) == 1:
+            a = t['args'][0]
+            av = val_of_op(a)
+            if av is not None and av[0] == 'adt' and av[1] in (_R_, _O_):
+                if av[2] in ('Ok', 'Some'):
+                    cfv = ('adt', 'std::ops::ControlFlow', 'Continue', 0, (av[4][0] if av[4] else None,))
+                    cf = ('Continue', 0)
+                else:
+                    cfv = ('adt', 'std::ops::ControlFlow', 'Break', 1, (av,))
+                    cf = ('Break', 1)
+                stmts.extend(bstmts)
+                stmts.append({'k': 'assign', 'place': {'l': t['dest']['l'], 'p': []}, 'rv': {'k': 'agg', 'agg': 'adt', 'adt': 'std::ops::ControlFlow', 'variant': cf[0], 'variant_idx': cf[1], 'is_enum': True, 'fields': ['0'],
+                              'ops': [copy.deepcopy(a)], 'inl_try': av[2]}, 'span': t['span'], 'exp': t.get('exp'), 'inl': 'try'})
+                env[t['dest']['l']] = cfv
+                cur = t['target']
+                continue
+            last_term = t
+            stmts.extend(bstmts)
+            break
+        if k == 'switch':
+            dv = val_of_op(t['discr'])
+            if dv is not None and dv[0] in ('int', 'bool'):
+                want = int(dv[1])
+                tgt = None
+                for (sv, tb) in t['targets']:
+                    if int(sv) == want:
+                        tgt = tb
+                if tgt is None:
+                    tgt = t['otherwise']
+                stmts.extend(bstmts)
+                resolved += 1
+                cur = tgt
+                committed = (len(stmts), cur)
+                continue
+            last_term = t
+            stmts.extend(bstmts)
+            break
+        last_term = t
+        stmts.extend(bstmts)
+        break
+    if not resolved or committed is None:
+        return 0
+    # keep only what leads up to the last test that could be resolved: nothing beyond it is duplicated (in
+    # particular no call site)
+    nb['stmts'].extend(stmts[:committed[0]])
+    nb['term'] = {'k': 'goto', 'target': committed[1], 'span': nb['term']['span'], 'exp': nb['term'].get('exp'), 'inl': 'resolved'}
+    return resolved
+
+
+def _specialise_block(caller, nb, val, cont, D):
+    """nb ends with `D = <known value>; goto T`: continue it with the caller's continuation evaluated on that value."""
+    if nb['term']['k'] != 'goto':
+        return False
+    if val is None:
+        return False
+    if len(val) == 4 and val[0] == 'adt':
+        val = val + ((None,) if val[2] in ('Ok', 'Err', 'Some') else (),)
+    return _peval(caller, nb, nb['term']['target'], {D: val}) > 0
 
 
 def _retarget(blk, old, new):
@@ -461,9 +639,7 @@ def _retarget(blk, old, new):
 
 
 def _specialise_returns(caller, lo, hi, ret_blocks, off_l, D, target, ret_ty):
-    cont = _parse_cont(caller, target, D)
-    if cont is None:
-        return
+    cont = None
     blocks = caller['blocks']
     preds = {}
     for xi in range(lo, hi):
@@ -473,14 +649,14 @@ def _specialise_returns(caller, lo, hi, ret_blocks, off_l, D, target, ret_ty):
             preds.setdefault(sidx, []).append(xi)
     for ri in ret_blocks:
         R = blocks[ri]
-        own = _assigned_value(R, off_l, R.get('n_own_stmts'))
+        own = _assigned_value(R, off_l, R.get('n_own_stmts'), caller)
         if own != 'none-assigned':
             if own is not None:
                 _specialise_block(caller, R, own, cont, D)
             continue
         done_preds = set()
         for xi in list(preds.get(ri, [])):
-            val = _value_at_end(blocks, preds, xi, off_l, ret_ty)
+            val = _value_at_end(blocks, preds, xi, off_l, ret_ty, 0, caller)
             if val is None:
                 continue
             nb = copy.deepcopy(R)
@@ -497,42 +673,62 @@ def _specialise_returns(caller, lo, hi, ret_blocks, off_l, D, target, ret_ty):
             val = None
             t = X['term']
             if t['k'] == 'call' and t.get('dest') is not None and t['dest']['l'] == off_l and not t['dest']['p']:
-                val = _value_at_end(blocks, {}, xi, off_l, ret_ty)
+                val = _value_at_end(blocks, {}, xi, off_l, ret_ty, 0, caller)
             else:
-                v = _assigned_value(X, off_l)
+                v = _assigned_value(X, off_l, None, caller)
                 val = v if v not in (None, 'none-assigned') else None
             if val is None:
                 continue
             succ = _succs(X)
             if len(succ) != 1 or succ[0] == ri and xi in done_preds:
                 continue
-            chain = []
-            cur = succ[0]
+            # the region between the assignment and the return block: straight-line tails and the diamonds of
+            # conditional drops (drop flags); no calls, no reassignment of the return slot, acyclic, small
+            region = []
             okc = True
-            while cur != ri:
+            stack = [succ[0]]
+            while stack and okc:
+                cur = stack.pop()
+                if cur == ri or cur in region:
+                    continue
                 cb_ = blocks[cur]
-                if cb_.get('cleanup') or len(_succs(cb_)) != 1 or cur in chain or len(chain) > 12 or not (lo <= cur < hi):
+                if cb_.get('cleanup') or len(region) > 16 or not (lo <= cur < hi) or cb_['term']['k'] in ('call', 'return', 'unreachable', 'resume'):
                     okc = False
                     break
-                if _assigned_value(cb_, off_l) != 'none-assigned' or (cb_['term']['k'] == 'call'):
+                if _assigned_value(cb_, off_l) != 'none-assigned':
                     okc = False
                     break
-                chain.append(cur)
-                cur = _succs(cb_)[0]
-            if not okc or not chain:
+                region.append(cur)
+                stack.extend(_succs(cb_))
+            if not okc or not region:
                 continue
-            # only worth it when the tail is shared (otherwise the predecessor pass above handled it)
+            # acyclic?
+            def reaches(a, b_, seen_=None):
+                seen_ = seen_ or set()
+                for y in _succs(blocks[a]):
+                    if y == b_:
+                        return True
+                    if y in region and y not in seen_:
+                        seen_.add(y)
+                        if reaches(y, b_, seen_):
+                            return True
+                return False
+            if any(reaches(x_, x_) for x_ in region):
+                continue
             nbR = copy.deepcopy(R)
             if not _specialise_block(caller, nbR, val, cont, D):
                 continue
             blocks.append(nbR)
-            nxt = len(blocks) - 1
-            for ci in reversed(chain):
-                cc = copy.deepcopy(blocks[ci])
-                _retarget(cc, _succs(blocks[ci])[0], nxt)
-                blocks.append(cc)
-                nxt = len(blocks) - 1
-            _retarget(X, succ[0], nxt)
+            mapping = {ri: len(blocks) - 1}
+            for ci in region:
+                blocks.append(copy.deepcopy(blocks[ci]))
+                mapping[ci] = len(blocks) - 1
+            for ci in region:
+                cc = blocks[mapping[ci]]
+                for y in set(_succs(blocks[ci])):
+                    if y in mapping:
+                        _retarget(cc, y, mapping[y])
+            _retarget(X, succ[0], mapping[succ[0]])
 
 
 def prune_unreachable(b):
@@ -592,10 +788,9 @@ def _inline_family(bodies, lookup, known, roots):
                 c = lookup(cal)
                 if c is None or c is b or id(c) in stack or not _eligible(c, known):
                     continue
-                # only helpers living in the caller's own source file: a new method on ANOTHER type is a unit of
-                # its own (its type's rules apply to it as such), not a piece cut out of the caller
-                if (c.get('span') or '').split(':')[0] != (b.get('span') or '').split(':')[0]:
-                    continue
+                # helpers of any file are put in place; the bodies dropped afterwards stay available to the rules that
+                # judge a TYPE's own methods locally (Facts.dropped_helpers): a new method on another type is also a
+                # unit of its own
                 if c['arg_count'] != len(t['args']):
                     continue
                 process(c, stack)
@@ -657,17 +852,28 @@ def rename_back(j, renamed):
         return
     import re as _re
     pairs = []
+    moved = []
     for old, new in renamed.items():
-        ol, nl = old.split('::')[-1], new.split('::')[-1]
-        if ol == nl or new.startswith('<'):
+        if new.startswith('<'):
             continue
-        pairs.append((new, old, nl, ol))
-    if not pairs:
+        ol, nl = old.split('::')[-1], new.split('::')[-1]
+        op_, np_ = old.rsplit('::', 1)[0] if '::' in old else '', new.rsplit('::', 1)[0] if '::' in new else ''
+        if op_ != np_ and _strip_generics(op_) != _strip_generics(np_):
+            moved.append((new, old))
+        elif ol != nl:
+            pairs.append((new, old, nl, ol))
+    if not pairs and not moved:
         return
     def fix(v):
         if not isinstance(v, str) or '::' not in v:
             return v
         sv = _strip_generics(strip_crate(v))
+        for (new, old) in moved:
+            # free functions and inherent fns without generics in the path: replace the whole path
+            if sv == new or sv.startswith(new + '::'):
+                vv = strip_crate(v)
+                if vv.startswith(new):
+                    return old + vv[len(new):]
         for (new, old, nl, ol) in pairs:
             if sv == new or sv.startswith(new + '::') or sv.endswith('::' + new) or ('::' + new + '::') in sv:
                 return _re.sub(r'(?<=::)' + _re.escape(nl) + r'(?=$|::)', ol, v, count=1)
@@ -1032,14 +1238,12 @@ def desugar_adaptors(j):
                         j.setdefault('_closures_inlined', []).append(cb['id'])
             # the arms that build a known variant jump straight to the arm the caller's `?` / match selects
             if not dest['p']:
-                cont = _parse_cont(b, target, dest['l'])
-                if cont is not None:
-                    for nbk in new_blocks:
-                        if nbk['term']['k'] != 'goto' or nbk['term']['target'] != target or not nbk['stmts']:
-                            continue
-                        last = nbk['stmts'][-1]
-                        if last.get('k') == 'assign' and last['place']['l'] == dest['l'] and not last['place']['p'] and last['rv'].get('k') == 'agg' and last['rv'].get('adt') in (_R, _O) and last['rv'].get('variant'):
-                            _specialise_block(b, nbk, ('adt', last['rv']['adt'], last['rv']['variant'], last['rv']['variant_idx']), cont, dest['l'])
+                for nbk in new_blocks:
+                    if nbk['term']['k'] != 'goto' or nbk['term']['target'] != target or not nbk['stmts']:
+                        continue
+                    last = nbk['stmts'][-1]
+                    if last.get('k') == 'assign' and last['place']['l'] == dest['l'] and not last['place']['p'] and last['rv'].get('k') == 'agg' and last['rv'].get('adt') in (_R, _O) and last['rv'].get('variant'):
+                        _specialise_block(b, nbk, _absval_of_rv(b, last['rv']), None, dest['l'])
     count += desugar_iter_adaptors(j, by_id)
     if count:
         for b in j.get('instances', []):
@@ -1061,9 +1265,7 @@ def _respecialise(b):
         if not (last.get('dsg') and last.get('k') == 'assign' and not last['place']['p'] and last['rv'].get('k') == 'agg' and last['rv'].get('adt') in (_R, _O) and last['rv'].get('variant')):
             continue
         D = last['place']['l']
-        cont = _parse_cont(b, blk['term']['target'], D)
-        if cont is not None and cont['shape'] in ('try', 'match'):
-            _specialise_block(b, blk, ('adt', last['rv']['adt'], last['rv']['variant'], last['rv']['variant_idx']), cont, D)
+        _specialise_block(b, blk, _absval_of_rv(b, last['rv']), None, D)
 
 
 def _subst_captures(b, first_block, env_param, caps, by_ref, env_local=None):
@@ -1230,12 +1432,10 @@ def desugar_iter_adaptors(j, by_id):
             b['blocks'].extend(blocks)
             count += 1
             if kind != 'for_each':
-                cont = _parse_cont(b, target, dest['l'])
-                if cont is not None:
-                    for idx in (Fail, Done):
-                        nbk = b['blocks'][idx]
-                        last = nbk['stmts'][-1]
-                        _specialise_block(b, nbk, ('adt', 'std::result::Result', last['rv']['variant'], last['rv']['variant_idx']), cont, dest['l'])
+                for idx in (Fail, Done):
+                    nbk = b['blocks'][idx]
+                    last = nbk['stmts'][-1]
+                    _specialise_block(b, nbk, _absval_of_rv(b, last['rv']), None, dest['l'])
             # the closure body in place of the call, captures resolved to the captured locals
             off_l = len(b['locals'])
             first_new = len(b['blocks'])
@@ -1333,6 +1533,7 @@ def inline_unknown(j, known):
         return {'inlined': [], 'dropped': []}
     notes = []
     known0 = known
+    _set_adt_table(j)
     consts_aliased = _guarded(j, notes, 'alias_consts', lambda: alias_consts(j), {})
     n_desugared = _guarded(j, notes, 'desugar_adaptors', lambda: desugar_adaptors(j), 0)
     types_renamed = _guarded(j, notes, 'rename_types_back', lambda: rename_types_back(j, load_known_adts()), {})
@@ -1363,6 +1564,7 @@ def _inline_all(j, known):
         for b in drop:
             report['dropped'].add(strip_crate(b['path']))
             inst.remove(b)
+            j.setdefault('_dropped_helpers', []).append(b)
     # poly bodies: resolve by path
     poly = j['poly']
     by_path = {}
